@@ -360,7 +360,10 @@ func runValues(c valCase) (r valResult) {
 		if c.Pair == "sharedcap" {
 			d = make([]string, 0, 8)
 		}
-		if c.Pair != "" {
+		if c.Pair == "args" {
+			q := app.Strings(cli.StringsArg{Name: "B", Value: append([]string{}, d...)})
+			read2 = func() []string { return append([]string{}, (*q)...) }
+		} else if c.Pair != "" {
 			q := app.Strings(cli.StringsOpt{Name: "p pair", Value: d})
 			read2 = func() []string { return append([]string{}, (*q)...) }
 		}
@@ -393,7 +396,12 @@ func runValues(c valCase) (r valResult) {
 			d = make([]int, 0, 8)
 		}
 		if c.Pair != "" {
-			q := app.Ints(cli.IntsOpt{Name: "p pair", Value: d})
+			var q *[]int
+			if c.Pair == "args" {
+				q = app.Ints(cli.IntsArg{Name: "B", Value: append([]int{}, d...)})
+			} else {
+				q = app.Ints(cli.IntsOpt{Name: "p pair", Value: d})
+			}
 			read2 = func() []string {
 				res := []string{}
 				for _, i := range *q {
@@ -437,7 +445,12 @@ func runValues(c valCase) (r valResult) {
 			d = make([]float64, 0, 8)
 		}
 		if c.Pair != "" {
-			q := app.Floats64(cli.Floats64Opt{Name: "p pair", Value: d})
+			var q *[]float64
+			if c.Pair == "args" {
+				q = app.Floats64(cli.Floats64Arg{Name: "B", Value: append([]float64{}, d...)})
+			} else {
+				q = app.Floats64(cli.Floats64Opt{Name: "p pair", Value: d})
+			}
 			read2 = func() []string {
 				res := []string{}
 				for _, f := range *q {
